@@ -1,0 +1,70 @@
+//go:build verif
+
+// Contracts for package badgerdb, read by /verif/gvc (comment-only file; it declares
+// nothing and is compiled only with -tags verif).
+package badgerdb
+
+// ---- C10: the badger iterator wrapper behaves as the ordered-map iterator of kvi ----------
+// The wrapper is valid exactly when its key field is set (Valid() is key != nil; a nil and
+// an empty byte slice are the same value in the model, and no stored key is empty). After
+// Seek(id) it is valid iff some stored key is at or after id and then holds the smallest
+// such key, whatever position it had before; SeekReverse(id) is the mirror image; Next
+// moves to the neighbouring key in the current direction or invalidates.
+// Assumed: badger's own iterator (spec/kvlib.gvc), init (direction of the cursor it
+// creates) and copyBytes (a copy equals its argument).
+
+//@ func (*badgerIterator).init
+//@   trusted
+//@   option prelude=kv,kvlib
+//@   modifies H.kvi_badgerdb.badgerIterator. alloc
+//@   ensures cursor: badgerIt.c != nil && (itrev(badgerIt.c) <==> !forward) && badgerIt.forward == forward && badgerIt.key == old(badgerIt.key) && badgerIt.tx == old(badgerIt.tx)
+
+//@ func copyBytes
+//@   trusted
+//@   pure
+//@   ensures same: result == in
+
+//@ func (*badgerIterator).Seek
+//@   property C10
+//@   option prelude=kv,kvlib
+//@   modifies KV.it H.kvi_badgerdb.badgerIterator. alloc
+//@   requires nonnil: badgerIt != nil
+//@   requires keys: forall j:Str :: kvhas(j) ==> j != ""
+//@   ensures valid: (badgerIt.key != "") <==> (exists j:Str :: kvhas(j) && ble(id, j))
+//@   ensures pos: badgerIt.key != "" ==> kvhas(badgerIt.key) && ble(id, badgerIt.key) && (forall j:Str :: kvhas(j) && ble(id, j) ==> ble(badgerIt.key, j))
+//@   ensures cursor: badgerIt.c != nil && !itrev(badgerIt.c) && (itvalid() <==> badgerIt.key != "") && (itvalid() ==> itpos() == badgerIt.key)
+
+//@ func (*badgerIterator).SeekReverse
+//@   property C10
+//@   option prelude=kv,kvlib
+//@   modifies KV.it H.kvi_badgerdb.badgerIterator. alloc
+//@   requires nonnil: badgerIt != nil
+//@   requires keys: forall j:Str :: kvhas(j) ==> j != ""
+//@   ensures valid: (badgerIt.key != "") <==> (exists j:Str :: kvhas(j) && ble(j, id))
+//@   ensures pos: badgerIt.key != "" ==> kvhas(badgerIt.key) && ble(badgerIt.key, id) && (forall j:Str :: kvhas(j) && ble(j, id) ==> ble(j, badgerIt.key))
+//@   ensures cursor: badgerIt.c != nil && itrev(badgerIt.c) && (itvalid() <==> badgerIt.key != "") && (itvalid() ==> itpos() == badgerIt.key)
+
+//@ func (*badgerIterator).Next
+//@   property C10
+//@   option prelude=kv,kvlib
+//@   modifies KV.it H.kvi_badgerdb.badgerIterator. alloc
+//@   requires nonnil: badgerIt != nil && badgerIt.c != nil
+//@   requires keys: forall j:Str :: kvhas(j) ==> j != ""
+//@   requires positioned: itvalid() && itpos() == badgerIt.key && badgerIt.key != ""
+//@   let k0 = badgerIt.key
+//@   ensures fvalid: !itrev(badgerIt.c) ==> ((badgerIt.key != "") <==> (exists j:Str :: kvhas(j) && blt(k0, j)))
+//@   ensures fpos: !itrev(badgerIt.c) && badgerIt.key != "" ==> kvhas(badgerIt.key) && blt(k0, badgerIt.key) && (forall j:Str :: kvhas(j) && blt(k0, j) ==> ble(badgerIt.key, j))
+//@   ensures rvalid: itrev(badgerIt.c) ==> ((badgerIt.key != "") <==> (exists j:Str :: kvhas(j) && blt(j, k0)))
+//@   ensures rpos: itrev(badgerIt.c) && badgerIt.key != "" ==> kvhas(badgerIt.key) && blt(badgerIt.key, k0) && (forall j:Str :: kvhas(j) && blt(j, k0) ==> ble(j, badgerIt.key))
+
+//@ func (*badgerIterator).Valid
+//@   property C10
+//@   pure
+//@   requires nonnil: badgerIt != nil
+//@   ensures def: result <==> badgerIt.key != ""
+
+//@ func (*badgerIterator).Key
+//@   property C10
+//@   pure
+//@   requires nonnil: badgerIt != nil
+//@   ensures def: result == badgerIt.key
